@@ -149,6 +149,13 @@ def run_case(tap, g, idx, spec):
         q = np.abs(q)
     elif sign_mode == 2:
         q = -np.abs(q)
+    # whole-watt loads as an integer array, and the hourly axis as the integer array the tool itself builds (np.arange(1, n + 1))
+    if g.random() < 0.15:
+        q = np.round(q).astype(np.int64)
+        stats["int_load_array"] = True
+    if axis == 4 and float(dt[0]) == 1.0:
+        t = np.arange(1, n + 1, 1)
+        stats["int_time_axis"] = True
     gx, gy = random_g_table(g, P["ts"], float(dt.min()) * 0.999, float(t[-1]) * 1.001)
     gi = interp1d(gx, gy)
     with warnings.catch_warnings():
